@@ -12,7 +12,7 @@ from ..core import require
 from ..spec import build, kinds
 
 ID = "C09"
-BUDGET = {"quick": (4, 400), "thorough": (16, 5000)}
+BUDGET = {"quick": (4, 1500), "thorough": (16, 15000)}
 TECHNIQUE = "property-based testing (Hypothesis) of == against a reference equality on normalised documents"
 RULE = (
     "Generated pairs (a, b): (positive) an object vs itself, copy(), pickle clone and - in immutable form - its JSON "
@@ -76,7 +76,7 @@ def strategy(tier):
         elif mode == "perturb":
             case["node"] = draw(st.integers(0, 200))
             case["field"] = draw(st.integers(0, 5))
-            case["amount"] = draw(st.sampled_from(("ulp", "ulp", "-ulp", "gross")))
+            case["amount"] = draw(st.sampled_from(("ulp", "-ulp", "gross", "gross", "neg", "to-inf", "to-nan")))
         elif mode == "arbitrary":
             spec2 = draw(gen.tree_specs(opts))
             s2, _ = draw(gen.streams(spec2, max_rows=6))
@@ -117,10 +117,12 @@ def eq3(a, b, what):
 
 def perturb(clone, node_i, field_i, amount):
     """Change one numeric field of one node of `clone` in place; returns a description or None."""
-    nodes = [(p, n) for p, n in walk.walk(clone)]
-    p, n = nodes[node_i % len(nodes)]
-    fields = NUMERIC_FIELDS[n.name]
-    f = fields[field_i % len(fields)]
+    pairs = [(p, n, f) for p, n in walk.walk(clone) for f in NUMERIC_FIELDS[n.name] if f != "entries" or amount in ("ulp", "-ulp", "gross")]
+    # content fields first: 'entries' of inner nodes is the least interesting thing to perturb
+    pairs.sort(key=lambda t: t[2] == "entries")
+    if not pairs:
+        return None
+    p, n, f = pairs[(node_i * 7 + field_i) % len(pairs)]
     if f == "@values":
         if not n.values:
             f = "entries"
@@ -141,7 +143,15 @@ def perturb(clone, node_i, field_i, amount):
 
 
 def _bump(x, amount):
-    if not isinstance(x, float) or math.isnan(x) or math.isinf(x):
+    if not isinstance(x, float):
+        return None
+    if amount == "neg":  # sign flip (also of an infinity)
+        return -x if x == x and x != 0 else None
+    if amount == "to-inf":
+        return math.inf if x == x and not math.isinf(x) else None
+    if amount == "to-nan":
+        return math.nan if x == x else None
+    if math.isnan(x) or math.isinf(x):
         return None
     if amount == "ulp":
         return math.nextafter(x, math.inf)
